@@ -714,6 +714,12 @@ func TestReplay(t *testing.T) {
 			t.Fatal(err)
 		}
 		evid.Direct(t, judgeNorm(&c))
+	case "order":
+		var c OrderCase
+		if err := json.Unmarshal(raw, &c); err != nil {
+			t.Fatal(err)
+		}
+		evid.Direct(t, judgeOrder(&c))
 	default:
 		t.Fatalf("unknown check %q", check)
 	}
